@@ -559,6 +559,8 @@ def limit_edge_streams(rng, lim):
                 s = head + line + b"\r\nabc\r\n0\r\n\r\n"
                 mark = len(pre) + len(head) + len(line)
             elif pos == "trailer":
+                if mh < 6:      # the head's 4 lines leave max_headers - 4 lines for trailers + the empty line
+                    continue
                 n = mf + delta
                 line = b"X-T: " + b"t" * max(0, n - 5)
                 head = b"POST / HTTP/1.1\r\nHost: x\r\nTransfer-Encoding: chunked\r\n\r\n3\r\nabc\r\n0\r\n"
